@@ -18,28 +18,25 @@ Definition g_l0 : R := Rlit 3030 (-1).    (* 303 *)
 Definition g_l1 : R := Rlit 1230 (-1).    (* 123 *)
 Definition g_ra1 : R := Rlit 1225 (-2).   (* 12.25 *)
 
+(* latitude formula of the galactic pair: the same as hor_ele with the factors of the
+   numerator written in the other order *)
+Definition gal_lat (h d p : R) : R :=
+  atan2 (sin d * sin p + cos d * cos p * cos h)
+        (Rabs (cos d) * sqrt (hor_x h d p * hor_x h d p + sin h * sin h)).
+Lemma gal_lat_hor h d p : gal_lat h d p = hor_ele h d p.
+Proof. unfold gal_lat, hor_ele. f_equal. ring. Qed.
+
 Lemma eq2gal_closed (al de : R) :
   f_equatorial2galactic Rops (ang al) (ang de) =
   VTuple [ang (topos (red360 (r2d (- hor_azi (d2r g_ra - d2r al) (d2r de) (d2r g_dec)) + g_l0)));
-          ang (r2d (hor_ele (d2r g_ra - d2r al) (d2r g_dec) (d2r de)))].
-Proof.
-  pose proof (zr_plus_cos (de * (PI / 180)) (Rlit 274 (-1) * (PI / 180))
-                (Rlit 19225 (-2) * (PI / 180) - al * (PI / 180))) as Hz.
-  c05run. reflexivity.
-Qed.
+          ang (r2d (gal_lat (d2r g_ra - d2r al) (d2r de) (d2r g_dec)))].
+Proof. crun. reflexivity. Qed.
 
 Lemma gal2eq_closed (lo la : R) :
   f_galactic2equatorial Rops (ang lo) (ang la) =
   VTuple [ang (topos (r2d (hor_azi (d2r lo - d2r g_l1) (d2r la) (d2r g_dec)) + g_ra1));
-          ang (r2d (hor_ele (d2r lo - d2r g_l1) (d2r g_dec) (d2r la)))].
-Proof.
-  pose proof (zr_plus_cos (la * (PI / 180)) (Rlit 274 (-1) * (PI / 180))
-                (lo * (PI / 180) - Rlit 1230 (-1) * (PI / 180))) as Hz.
-  c05run. reflexivity.
-Qed.
-
-Lemma hor_ele_sym h d p : hor_ele h d p = hor_ele h p d.
-Proof. unfold hor_ele. f_equal. ring. Qed.
+          ang (r2d (gal_lat (d2r lo - d2r g_l1) (d2r la) (d2r g_dec)))].
+Proof. crun. reflexivity. Qed.
 
 (* the two fixed rotations *)
 Definition Rgal (v : vec) : vec :=
@@ -92,7 +89,7 @@ Theorem eq2gal_rotation al de : -90 < de < 90 ->
     /\ 0 <= lo < 360 /\ -90 <= la <= 90.
 Proof.
   intros Hde. eexists. eexists. split; [apply eq2gal_closed |]. split; [| split].
-  - rewrite uvec_topos_deg', uvec_red360_deg, d2r_plus, !d2r_r2d, hor_ele_sym.
+  - rewrite uvec_topos_deg', uvec_red360_deg, d2r_plus, !d2r_r2d, gal_lat_hor.
     rewrite <- Rz_uvec, <- My_uvec, hor_formula_rot by now apply cos_d2r_pos.
     unfold Rgal, Rhor. f_equal. rewrite My_Ry. f_equal.
     replace (d2r g_ra - d2r al) with (- d2r al + d2r g_ra) by ring.
@@ -101,7 +98,7 @@ Proof.
     assert (Hb : -180 < r2d x <= 180) by apply r2d_atan2_range.
     assert (Hr : -720 < r2d (- x) + g_l0 < 720) by (rewrite r2d_opp; unfold g_l0; Rlit_norm; lra).
     pose proof (red360_range _ Hr). apply topos_range. lra.
-  - apply asin_range_deg.
+  - apply r2d_atan2_nonneg_range, abs_sqrt_nonneg.
 Qed.
 
 Theorem gal2eq_rotation lo la : -90 < la < 90 ->
@@ -110,7 +107,7 @@ Theorem gal2eq_rotation lo la : -90 < la < 90 ->
     /\ 0 <= al < 360 /\ -90 <= de <= 90.
 Proof.
   intros Hla. eexists. eexists. split; [apply gal2eq_closed |]. split; [| split].
-  - rewrite uvec_topos_deg', d2r_plus, !d2r_r2d, hor_ele_sym.
+  - rewrite uvec_topos_deg', d2r_plus, !d2r_r2d, gal_lat_hor.
     rewrite <- Rz_uvec, hor_formula_rot by now apply cos_d2r_pos.
     unfold Rgal_inv, Rhor. f_equal. f_equal.
     replace (d2r lo - d2r g_l1) with (d2r lo + - d2r g_l1) by ring.
@@ -118,7 +115,7 @@ Proof.
   - set (x := hor_azi (d2r lo - d2r g_l1) (d2r la) (d2r g_dec)).
     assert (Hb : -180 < r2d x <= 180) by apply r2d_atan2_range.
     apply topos_range. unfold g_ra1. Rlit_norm. lra.
-  - apply asin_range_deg.
+  - apply r2d_atan2_nonneg_range, abs_sqrt_nonneg.
 Qed.
 
 Theorem gal_roundtrip al de lo la : 0 <= al < 360 -> -90 < de < 90 ->
